@@ -1,0 +1,36 @@
+//go:build verif
+
+package engine
+
+// VerifRepTree returns t (resolved in env, recursively) with the Go encoding of every compound made
+// explicit as marker functors, for the verification harness:
+//
+//	list [e1..en]                -> '$list'(e1, .., en)
+//	*partial{Compound: p, tail}  -> '$partial'(p', tail')
+//	charList "abc"               -> '$chars'(abc)
+//	codeList "abc"               -> '$codes'(abc)
+//	any other Compound           -> f(args…)
+func VerifRepTree(t Term, env *Env) Term {
+	switch t := env.Resolve(t).(type) {
+	case charList:
+		return NewAtom("$chars").Apply(NewAtom(string(t)))
+	case codeList:
+		return NewAtom("$codes").Apply(NewAtom(string(t)))
+	case list:
+		args := make([]Term, len(t))
+		for i, e := range t {
+			args[i] = VerifRepTree(e, env)
+		}
+		return NewAtom("$list").Apply(args...)
+	case *partial:
+		return NewAtom("$partial").Apply(VerifRepTree(t.Compound, env), VerifRepTree(*t.tail, env))
+	case Compound:
+		args := make([]Term, t.Arity())
+		for i := range args {
+			args[i] = VerifRepTree(t.Arg(i), env)
+		}
+		return t.Functor().Apply(args...)
+	default:
+		return t
+	}
+}
